@@ -165,6 +165,23 @@ def gen_plan(rng, max_channels=4, rekey=False):
     return plan
 
 
+def valid_plan(plan):
+    try:
+        if plan['srv_window'] < 1 or plan['srv_pktsize'] < 1:
+            return False
+
+        for ch in plan['channels']:
+            if ch['window'] < 1 or ch['pktsize'] < 1 or ch['read_n'] < 1:
+                return False
+
+            if ch['kind'] not in ('session', 'tcp'):
+                return False
+    except (KeyError, TypeError):
+        return False
+
+    return True
+
+
 # -- sessions ------------------------------------------------------------------------
 
 
